@@ -58,7 +58,10 @@ META = {
         "Pyoda.GenAgree.C01.gen_Isl_toMonth_eq", "Pyoda.GenAgree.C01.gen_Isl_split_eq",
         "Pyoda.GenAgree.C01.gen_Pers_len_eq", "Pyoda.GenAgree.C01.gen_Pers_dim_eq",
         "Pyoda.GenAgree.C01.gen_Pers_toMonth_eq", "Pyoda.GenAgree.C01.gen_Pers_split_eq",
-        "Pyoda.GenAgree.C01.gen_Pers_leapArithmetic_eq", "Pyoda.GenAgree.C01.gen_Calc_minYear_eq",
+        "Pyoda.GenAgree.C01.gen_Pers_leapArithmetic_eq", "Pyoda.GenAgree.C01.gen_Isl_isLeap_eq",
+        "Pyoda.GenAgree.C01.gen_Pers_leapSimple_eq", "Pyoda.GenAgree.C01.gen_Isl_start_loop1_eq",
+        "Pyoda.GenAgree.C01.gen_Isl_start_loop2_eq", "Pyoda.GenAgree.C01.gen_Isl_start_eq",
+        "Pyoda.GenAgree.C01.gen_dayOfWeek_eq", "Pyoda.GenAgree.C01.gen_Calc_minYear_eq",
         "Pyoda.GenAgree.C01.gen_Calc_maxYear_eq", "Pyoda.GenAgree.C01.gen_Calc_daysAtStartOfYear1_eq",
         "Pyoda.GenAgree.C01.gen_Calc_getYear_loop1_eq", "Pyoda.GenAgree.C01.gen_Calc_getYear_loop2_agree",
         "Pyoda.GenAgree.C01.gen_Calc_getYear_agree", "Pyoda.GenAgree.C01.gen_Calc_getYearMonthDay_eq",
@@ -80,7 +83,7 @@ META = {
         "calculators listed under C01 in tools/py2lean_targets.py are re-translated from the current Python source on each run into "
         "lean/PyodaGen/C01.lean and proved equal to the hand-written calendar model (PyodaProofs/GenAgreeC01.lean; shared by C01 and C02). "
         "Trusted there: Python int = Lean Int; // and % = Int.fdiv/Int.fmod for non-zero constant divisors; >> by a constant = "
-        "Int.shiftRight; x & (2^k-1) = x mod 2^k; raising calls bound left-to-right in Except PyExc; if-statements by tail duplication; "
+        "Int.shiftRight; x & (2^k-1) = x mod 2^k, other & | ^ and run-time shifts through PyodaGen/Support.lean; raising calls bound left-to-right in Except PyExc; if-statements by tail duplication; "
         "virtual calls self._is_leap_year of shared base classes are function parameters instantiated with the generated leap rule of "
         "each calculator; class-level tables built by a static function at class creation are evaluated from the source by the "
         "translator's small interpreter (for/range/append/yield) and read with pyIndex (IndexError outside, negative index wraps); "
@@ -89,9 +92,12 @@ META = {
         "_YearMonthDayCalculator (_get_year with its two while loops as fuel-recursive functions, fuel 64 = yearFuel, out of fuel = !dom; "
         "_get_year_month_day_from_days_since_epoch, _get_days_since_epoch, _validate_year_month_day, _get_day_of_year) is translated with "
         "its virtual members as abstract callees instantiated by the model record c : Calc; gen_Calc_getYear_agree / ymdOfDays_agree are "
-        "equalities up to the kind of error when the fuel runs out. Not translated (correspondence only): the year-start cache, the "
-        "1900-2100 table paths of the Gregorian calculator (tables filled in __init__), the Islamic and Persian simple/astronomical leap "
-        "rules (bit tests), Islamic year starts (for loop), Hebrew, Um Al Qura, Badi",
+        "equalities up to the kind of error when the fuel runs out. The bit-test leap rules of the tabular Islamic and the Persian simple "
+        "calendars (`pattern & (1 << year_of_cycle) > 0`: run-time shift pyShl, two's-complement pyAnd of PyodaGen/Support.lean, proved "
+        "equal to Nat.testBit) and the Islamic year start (its `for i in range(...)` loop as a fuel-recursive function, proved equal to "
+        "the model's sumFrom) are translated too. Not translated (correspondence only): the year-start cache, the 1900-2100 table paths "
+        "of the Gregorian calculator (tables filled in __init__), the Persian astronomical leap rule (bytes table) and the Persian "
+        "year-start list (built in __init__), Hebrew, Um Al Qura, Badi",
     ],
     "partial": [
         "Persian arithmetic before year 475 is excluded by the property",
